@@ -30,7 +30,13 @@ are three sufficient conditions under which threads cannot disturb each other th
   H9b populate-once state is published atomically (one write statement or under a lock);
   H12 a temporary patch of a shared object (save / set / restore) runs under a lock;
   H13 no function sets a module-level name AROUND a computation that reads it (save / set / compute / restore, or a context manager
-      setting it for its with-body) without a lock: such a name is a dynamically scoped parameter shared by all threads.
+      setting it for its with-body) without a lock: such a name is a dynamically scoped parameter shared by all threads
+      (round 5: only readers that run AFTER a rebinding statement count -- the right-hand side of the rebinding is evaluated before it);
+  H14 (round 5) a mutated module-level object that is neither a guarded keyed cache / registry nor configuration is working memory
+      shared by all threads (scratch buffers such as `[0] * 16`, "current document" slots): `unknown`, the schedule replayer decides.
+Round 5 also: the with-body of the char-map patcher must not suspend (`yield` / `await` inside `with <patcher>()` keeps the patch
+installed for as long as the consumer likes -- replayed by histories in which the caller keeps the raised exception); memo obligations
+are one per STATE (all store sites together), so splitting / merging store sites does not change the obligation set.
 A failed condition is `unknown` until the native replayer exhibits a schedule: two threads under a controlled scheduler
 (sys.settrace), one preemption at every line of the functions that touch the state (H9, H10), or two context switches at every
 pair of lines of the patching context manager (H12).  H9a and H9b were repaired in /repo (fix: commits); H12 still fails on
@@ -539,6 +545,19 @@ def policy(repo, tier):
       cm_fn is not None and len(sites_cm) >= 1 and as_with == len(sites_cm) and not O.referenced_elsewhere(an, cm_fn),
       f"{cm_key[1] if cm_key else '?'}: {as_with}/{len(sites_cm)} uses are with-items", PDF, definite=False)
 
+    # the patch must not outlive the statement that applies it: a `yield` inside the with-body hands control to the consumer while the
+    # patch is installed -- when (whether) it is undone then depends on when the consumer resumes / drops the generator
+    susp = []
+    for (g, call) in sites_cm:
+        pm = O.parents_of(g)
+        w = pm.get(id(pm.get(id(call)))) if isinstance(pm.get(id(call)), ast.withitem) else None
+        if isinstance(w, (ast.With, ast.AsyncWith)):
+            inner = [n for st_ in w.body for n in [st_] + list(O._own(st_)) if isinstance(n, (ast.Yield, ast.YieldFrom, ast.Await))]
+            if inner:
+                susp.append(f"{g.q} line {inner[0].lineno}: yields inside `with {cm_key[1]}()`")
+    GH("C15/pdf_extractor.py::<char-map-patcher>/policy#with-body-does-not-suspend", cm_fn is not None and not susp,
+       "; ".join(susp) or f"{len(sites_cm)} with-statement(s), none yields while the patch is installed", PDF, definite=False,
+       h={"rel": PDF, "held_exceptions": True})
     # ---- foreign objects (other libraries, the interpreter): who mutates them, on whose behalf (root = where the object is named)
     # process entry points (modules with an `if __name__ == "__main__"` guard): what a command-line front end does to ITS process
     # before / after calling the library is not the library's extraction code
@@ -634,17 +653,16 @@ def policy(repo, tier):
                     opaque.append((root, e))
         sites.sort(key=lambda t: (t[0].rel, t[0].node.lineno, t[6]["node"].lineno, getattr(t[2], "lineno", 0), getattr(t[2], "col_offset", 0)))
         accessors = sorted({t[0].q for t in sites} | {r.q for (r, _e) in opaque} | {e["fn"][1] for e in cw})
+        m1_bad, m2_bad, m1_ok, writer0 = [], [], [], (sites[0][0].q if sites else None)
         for k, (root, sf, key, val, chain, how, e) in enumerate(sites):
             at_ = e["node"] if sf.key() == e["fn"] else None        # the store statement: only definitions that reach it count
             kd_h, vd_h = O.deps(an, sf, key, at=at_), O.deps(an, sf, val, at=at_)
             kd, vd = O.lift_deps(an, sf, kd_h, chain), O.lift_deps(an, sf, vd_h, chain)
-            ok = vd <= kd
-            h = hint(x, writer=root.q, accessors=accessors)
-            # H3a: the stored value is computed from nothing but what the key is computed from (parameters and module state)
-            GH(f"{S}/memo#stored-value-depends-only-on-the-key-site{k}", ok,
-               f"{x} in {root.q} ({how}): key depends on {sorted(kd)}, stored value depends on {sorted(vd)}" +
-               ("" if ok else " -- a later call with the same key and other arguments gets a stale value"), x, definite=False, h=h)
-            # H3b: ... and the key DETERMINES each of those inputs (two different inputs never share a key)
+            if vd <= kd:
+                m1_ok.append(f"{root.q} ({how}): key {sorted(kd)} / value {sorted(vd)}")
+            else:
+                m1_bad.append(f"{root.q} ({how}): key depends on {sorted(kd)}, stored value depends on {sorted(vd)}")
+                writer0 = root.q
             lost = []
             for p in sorted(vd_h):
                 if p.startswith("state:") or O.determines(an, sf, key, p):
@@ -652,14 +670,25 @@ def policy(repo, tier):
                 if not O.lift_deps(an, sf, {p}, chain) and chain:
                     continue                                   # always called with a constant there
                 lost.append(p)
-            GH(f"{S}/memo#key-determines-every-input-of-the-stored-value-site{k}", not lost,
-               f"{x} in {root.q}: key `{ast.unparse(key)[:80]}`" + (f" is not built injectively from {lost}: two calls that differ in {lost} may share a cache entry" if lost else
-                                                                   f" is built from {sorted(vd_h)} by tuples / order-preserving conversions only"), x, definite=False, h=h)
-        for k, (root, e) in enumerate(opaque):
-            GH(f"{S}/memo#publication-is-a-recognised-keyed-store-{k}", False, f"{x} in {root.q}: {e['how']} -- what is published is not a recognised dict expression", x,
-               definite=False, h=hint(x, writer=root.q, accessors=accessors))
+            if lost:
+                m2_bad.append(f"{root.q}: key `{ast.unparse(key)[:80]}` is not built injectively from {lost}: two calls that differ in {lost} may share a cache entry")
+                writer0 = root.q
+        if sites:
+            h = hint(x, writer=writer0, accessors=accessors)
+            # H3a: every stored value is computed from nothing but what its key is computed from (parameters and module state)
+            GH(f"{S}/memo#stored-value-depends-only-on-the-key", not m1_bad,
+               f"{x}: " + ("; ".join(m1_bad[:3]) + " -- a later call with the same key and other arguments gets a stale value" if m1_bad else f"{len(sites)} store site(s): " + "; ".join(m1_ok[:3])),
+               x, definite=False, h=h)
+            # H3b: ... and every key DETERMINES each of those inputs (two different inputs never share a key)
+            GH(f"{S}/memo#key-determines-every-input-of-the-stored-value", not m2_bad,
+               f"{x}: " + ("; ".join(m2_bad[:3]) if m2_bad else f"{len(sites)} store site(s), keys built from their inputs by tuples / order-preserving conversions only"),
+               x, definite=False, h=h)
+        if opaque:
+            GH(f"{S}/memo#publication-is-a-recognised-keyed-store", False, f"{x}: " + "; ".join(f"{r_.q}: {e_['how']}" for (r_, e_) in opaque[:3]) + " -- what is published is not a recognised keyed expression", x,
+               definite=False, h=hint(x, writer=opaque[0][0].q, accessors=accessors))
         # H3c: lookups and stores of one accessor use one key expression (a helper's store key is read at its call site)
         roots = sorted({t[0].key(): t[0] for t in sites}.values(), key=lambda f_: (f_.rel, f_.node.lineno))
+        lk_bad, lk_ok = [], []
         for k, root in enumerate(roots):
             keys = set()
             for n in root.own:
@@ -677,8 +706,10 @@ def policy(repo, tier):
             norm = lambda t: O.resolve_alias_text(root, t)
             both = {norm(t) for t in keys} | {norm(t) for t in stores}
             if keys and stores:
-                GH(f"{S}/memo#lookup-key-is-the-store-key-{k}", len(both) == 1, f"{x} in {root.q}: lookups use {sorted(keys)}, stores use {sorted(stores)}", x, definite=False,
-                   h=hint(x, writer=root.q, accessors=accessors))
+                (lk_ok if len(both) == 1 else lk_bad).append(f"{root.q}: lookups use {sorted(keys)}, stores use {sorted(stores)}")
+        if lk_ok or lk_bad:
+            GH(f"{S}/memo#lookup-key-is-the-store-key", not lk_bad, f"{x}: " + "; ".join((lk_bad or lk_ok)[:3]), x, definite=False,
+               h=hint(x, writer=roots[0].q, accessors=accessors))
         # H7: every content-changing write happens after a miss of the state's own lookup -- in its function or at every call site of it
         unguarded = []
         for e in cw:
@@ -727,12 +758,12 @@ def policy(repo, tier):
                or f"{x}: one write statement outside loops (or under a lock)", x, definite=False, h=hint(x, accessors=accessors))
         # H9a (schedules): where entries can be evicted, operations that need their key present tolerate a concurrent eviction
         if any(e["removal"] for e in an.writes(x)):
-            for k, (fn, n, text) in enumerate(O.keyed_acts(an, x)):
-                ok = O.tolerant_or_locked(fn, n)
-                GH(f"{S}/schedule#keyed-act-tolerates-a-concurrent-eviction-act{k}", ok,
-                   f"{x}: {fn.q} line {n.lineno}: `{text}` " + ("is inside try/except KeyError or a lock" if ok else
-                                                                  "raises KeyError when another thread evicts the entry between the lookup and this statement"), x,
-                   definite=False, h=hint(x, accessors=accessors, act=fn.q))
+            acts = O.keyed_acts(an, x)
+            bad_acts = [(fn, n, text) for (fn, n, text) in acts if not O.tolerant_or_locked(fn, n)]
+            GH(f"{S}/schedule#keyed-acts-tolerate-a-concurrent-eviction", not bad_acts,
+               f"{x}: " + ("; ".join(f"{fn.q} line {n.lineno}: `{text}` raises KeyError when another thread evicts the entry between the lookup and this statement" for (fn, n, text) in bad_acts[:3])
+                           if bad_acts else f"{len(acts)} keyed act(s), each inside try/except KeyError or a lock"), x,
+               definite=False, h=hint(x, accessors=accessors, act=(bad_acts[0][0].q if bad_acts else None)))
         # H10: ownership -- objects stored in / handed out by the state are never mutated afterwards
         vm = an.vmuts(x)
         GH(f"{S}/ownership#objects-handed-out-by-the-cache-are-never-mutated", not vm,
@@ -756,6 +787,11 @@ def policy(repo, tier):
             or (not cw and not rebinds)                       # only reordered / evicted: nothing to understand
         if not kind_ok:
             unrecognised.append(x)
+            # H14 (schedules): an object that is neither a guarded cache nor configuration but written and read while a call runs is
+            # working memory shared by all threads (a scratch buffer, a "current document" slot)
+            GH(f"{S}/schedule#working-memory-is-not-shared-between-threads", False,
+               f"{x} is written by {sorted({e['fn'][1] for e in an.writes(x)})[:3]} without being a guarded cache: concurrent calls overwrite each other's intermediate data", x,
+               definite=False, h=hint(x, accessors=accessors))
     inv = ground_obligation("C15/package/policy#inventory-of-module-level-mutable-state", not unrecognised and bool(written) and an.converged,
                             f"{len(written)} mutated module-level objects, each a guarded keyed cache / registry or a configuration object: {written}" +
                             (f"; NOT of a recognised kind: {unrecognised}" if unrecognised else ""), "package", definite=False)
@@ -811,9 +847,21 @@ def policy(repo, tier):
                 continue
             readers = {k_ for k_, g in an.fns.items() if k_[0] == rel and k_ != (rel, q) and nm not in g.locals
                        and any(isinstance(n, ast.Name) and n.id == nm and isinstance(n.ctx, ast.Load) for n in g.own)}
-            inside = readers & O.callee_closure(an, (rel, q))
-            if O.is_context_manager(afn):
-                inside = readers                                  # the with-body runs while the name is set
+            # code that runs while the new value is in place: calls AFTER a rebinding statement (the right-hand side of the rebinding
+            # itself is evaluated before it), everything if a loop contains the rebinding, the with-body for a context manager
+            pm_ = O.parents_of(afn)
+            stmts_nm = [O._stmt_of(afn, n) for n in sites_nm]
+            first_end = min((st_.end_lineno for st_ in stmts_nm if st_ is not None), default=10 ** 9)
+            in_loop = any(afn.loops.get(id(n)) for n in sites_nm)
+            later = set()
+            for c_ in afn.own:
+                if isinstance(c_, ast.Call) and (in_loop or c_.lineno > first_end):
+                    k_ = an.resolve_call(afn, c_)
+                    if k_ is not None:
+                        later |= {k_} | O.callee_closure(an, k_)
+            inside = readers & later
+            if O.is_context_manager(afn) or O.is_generator(afn):
+                inside = readers                                  # the with-body / the consumer runs while the name is set
             if not inside:
                 continue
             if all(O.site_locked(an, afn, n) for n in sites_nm):
